@@ -42,6 +42,9 @@ class ThreadRec:
         self.blocked = None
         self.pool = []
         self.made = 0
+        self.held = {}
+        self.cache = {}   # cell -> (value, kind, mutex under which it was read/written)
+        self.cached_cells = {}  # cell -> set of mutexes relied upon
 
 
 class World:
@@ -134,6 +137,12 @@ def install(I):
                 raise GoPanic('nil-deref', 'lock on nil mutex', (ins or {}).get('pos', ''))
             m = world(I).obj('mutex', pkey(p))
             rec(I, kind, m, ins=ins)
+            th = world(I).cur
+            if kind in ('lock', 'rlock'):
+                th.held[m] = th.held.get(m, 0) + 1
+            else:
+                th.held.pop(m, None)
+                th.cache = {c: e for c, e in th.cache.items() if e[2] != m}
             return None
         return f
 
@@ -217,9 +226,13 @@ def install(I):
             return 'chanptr'
         return None
 
-    def shared_cell(I, p):
+    def shared_cell(I, p, write=False):
         w = world(I)
         if w.cur is None or not getattr(w, 'shared_ids', None) or id(p.c) not in w.shared_ids:
+            return None
+        if id(p.c) in getattr(w, 'frozen_ids', ()):
+            if write:
+                raise Inconclusive('a goroutine writes an object the harness declared immutable (verif_freeze)')
             return None
         return w
 
@@ -242,21 +255,47 @@ def install(I):
             return False, None
         name = w.obj('cell', pkey(p), init=cell_init(I, w, cur, kind))
         w.objs[('cell', pkey(p))]['ckind'] = kind
+        th = w.cur
+        ce = th.cache.get(name)
+        if ce is not None and ce[2] in th.held:
+            # second access to the same cell inside one critical section: same value, PROVIDED the cell is only ever
+            # accessed under that mutex -- verified on the whole tuple before solving (else inconclusive)
+            th.cached_cells.setdefault(name, set()).add(ce[2])
+            return True, ce[0]
         if kind == 'int':
             bits, signed = t.intinfo()
+            w.objs[('cell', pkey(p))]['bits'] = bits
             r = I.fresh_bv('rd', bits)
             rec(I, 'read', name, res=r, ins=ins)
+            if th.held:
+                th.cache[name] = (r, kind, list(th.held)[-1])
             return True, r
         if kind == 'bool':
             r = I.fresh_bool('rd')
             rec(I, 'read', name, res=r, ins=ins)
+            if th.held:
+                th.cache[name] = (r, kind, list(th.held)[-1])
             return True, r
         r = I.fresh_int('rdchan')
         rec(I, 'read', name, res=r, ins=ins)
-        cands = [None] + w.chan_pool
-        I.add(z3.And(r >= 0, r <= len(w.chan_pool)))
-        i = I.decide([r == j for j in range(len(cands))], 'chan-cell')
-        return True, cands[i]
+        # candidates: nil, channels already made by goroutines explored before (or by this one so far), and every pool
+        # channel of goroutines not explored yet (sound: a cell can only hold a channel some goroutine made)
+        ids = [0]
+        idx = w.threads.index(w.cur)
+        for ti, th in enumerate(w.threads):
+            for k, chn in enumerate(th.pool):
+                if ti <= idx and k >= th.made:
+                    continue
+                ids.append(w.chan_pool.index(chn) + 1)
+        cur0 = p.c[p.i]
+        if isinstance(cur0, Chan) and cur0 not in w.chan_pool:
+            raise Inconclusive('shared channel cell initialised before the goroutines start')
+        I.add(z3.Or(*[r == j for j in ids]))
+        i = I.decide([r == j for j in ids], 'chan-cell')
+        val = (None if ids[i] == 0 else w.chan_pool[ids[i] - 1])
+        if th.held:
+            th.cache[name] = (val, kind, list(th.held)[-1])
+        return True, val
 
     def cell_init(I, w, cur, kind):
         if kind == 'int':
@@ -268,7 +307,7 @@ def install(I):
         return w.chan_pool.index(cur) + 1 if cur in w.chan_pool else 0
 
     def store_hook(I, p, v, ins):
-        w = shared_cell(I, p)
+        w = shared_cell(I, p, write=True)
         if w is None:
             return False
         cur = p.c[p.i]
@@ -295,6 +334,11 @@ def install(I):
             bits = cur.size() if (is_sym(cur) and z3.is_bv(cur)) else (v.size() if (is_sym(v) and z3.is_bv(v)) else 64)
             val = z3.BitVecVal(v, bits) if isinstance(v, int) else v
         rec(I, 'write', name, (val,), ins=ins)
+        th = w.cur
+        if th.held:
+            th.cache[name] = (v, kind, list(th.held)[-1])
+        else:
+            th.cache.pop(name, None)
         return True
 
     I.shared_load_hook = load_hook
@@ -445,7 +489,8 @@ def install(I):
         w = world(I)
         name = cbase.gostr(args[0])
         th = ThreadRec(name, args[1])
-        th.pool = [Chan(0, name='%s#%d' % (name, k)) for k in range(I.cfg.get('chan_pool', 2))]
+        npool = I.cfg.get('chan_pool_by_name', {}).get(name, I.cfg.get('chan_pool', 2))
+        th.pool = [Chan(0, name='%s#%d' % (name, k)) for k in range(npool)]
         w.chan_pool.extend(th.pool)
         w.threads.append(th)
         return None
@@ -461,6 +506,18 @@ def install(I):
         run_threads(I, ins)
         return None
 
+    def v_observe(I, args, ins):
+        rec(I, 'observe', None, (args[1],), ins=ins, label=cbase.gostr(args[0]))
+        return None
+
+    def v_freeze(I, args, ins):
+        w = world(I)
+        w.frozen_ids = getattr(w, 'frozen_ids', set()) | reachable_containers([args[0]])
+        return None
+
+    N['verif_freeze'] = v_freeze
+    N['verif_observe'] = v_observe
+    N['verif_observeBytes'] = lambda I, a, ins: (rec(I, 'observe', None, (I.bytes_term(a[1]),), ins=ins, label=cbase.gostr(a[0])), None)[1]
     N['verif_go'] = v_go
     N['verif_assert'] = v_assert_thread
     N['verif_runThreads'] = v_run_threads
@@ -564,7 +621,28 @@ def step_semantics(ops, st, tid):
     return z3.And(*en_all), upd_all, bind_all
 
 
+def check_cached_cells(threads):
+    held_at = {}
+    for th in threads:
+        held = []
+        for o in th.ops:
+            if o.kind in ('lock', 'rlock'):
+                held.append(o.obj)
+            elif o.kind in ('unlock', 'runlock'):
+                if o.obj in held:
+                    held.remove(o.obj)
+            elif o.kind in ('read', 'write'):
+                cur = set(held)
+                held_at[o.obj] = cur if o.obj not in held_at else (held_at[o.obj] & cur)
+    for th in threads:
+        for cell, ms in th.cached_cells.items():
+            for m in ms:
+                if m not in held_at.get(cell, set()):
+                    raise Inconclusive('read of %s was coalesced under %s but the cell is also accessed without that mutex' % (cell, m))
+
+
 def solve_tuple(I, w):
+    check_cached_cells(w.threads)
     threads = w.threads
     T_ = len(threads)
     steps_of = merge_protected(threads)
@@ -592,6 +670,8 @@ def solve_tuple(I, w):
             st0[nm + '.cap'] = z3.IntVal(o['init'] or 0)
         elif kind == 'ctx':
             st0[nm + '.cancelled'] = z3.BoolVal(False)
+        elif kind == 'ds':
+            st0[nm + '.pres'], st0[nm + '.val'] = o['init']
         elif kind == 'cell':
             iv = o['init']
             ck = o.get('ckind')
@@ -600,7 +680,7 @@ def solve_tuple(I, w):
             elif ck == 'chanptr':
                 iv = z3.IntVal(iv if isinstance(iv, int) else 0)
             elif isinstance(iv, int):
-                iv = z3.BitVecVal(iv, 64)
+                iv = z3.BitVecVal(iv, o.get('bits', 64))
             st0[nm] = iv
     pcs0 = [z3.IntVal(0) for _ in threads]
     who = [z3.Int(I.fresh_name('who')) for _ in range(K)]
@@ -625,7 +705,11 @@ def solve_tuple(I, w):
                 step_ok.append(z3.And(sel, en, *bind))
                 for name, val in upd.items():
                     new_state[name] = z3.If(sel, val, new_state[name])
+                cur_st = dict(state)
                 for op in ops:
+                    if op.kind == 'sassert':
+                        c = op.args[0](cur_st)
+                        assert_fail.append((op.label, op.pos, z3.And(k < stop, sel, z3.Not(c))))
                     if op.kind == 'assert':
                         c = op.args[0]
                         negc = (not c) if isinstance(c, bool) else z3.Not(c)
@@ -682,11 +766,19 @@ def solve_tuple(I, w):
         p.violations.append(ob)
         return m
 
+    finals = []
+    fh = getattr(I, 'bmc_final_check', None)
+    if fh is not None:
+        allfin = z3.And(*fin)
+        for (label, cond) in fh(I, w, state):
+            finals.append((label, z3.And(allfin, z3.Not(cond) if not isinstance(cond, bool) else z3.BoolVal(not cond))))
     stuck_label = 'C-sched: no reachable stuck state (every goroutine can run to completion: no lost wake-up, no deadlock) [%s]' % desc
     groups = {}
     for (label, pos, f) in assert_fail:
         groups.setdefault((label, pos), []).append(f)
     trunc_f = z3.Or(*trunc) if trunc else z3.BoolVal(False)
+    for (label, f) in finals:
+        groups[(label, 'final state')] = [f]
     bad = z3.Or(stuck, trunc_f, *[z3.Or(*fs) for fs in groups.values()])
     import os
     tac = os.environ.get('BMC_TACTIC', 'simplify,propagate-values,solve-eqs,elim-uncnstr,smt')
@@ -839,8 +931,21 @@ def op_semantics(op, st, tid):
         return T_, {}, [op.res == st[op.obj + '.cancelled']]
     if k == 'cancel':
         return T_, {op.obj + '.cancelled': z3.BoolVal(True)}, []
-    if k == 'assert':
+    if k in ('assert', 'observe', 'sassert'):
         return T_, {}, []
+    if k == 'dsget':
+        key = op.args[0]
+        pres, val = op.res
+        return T_, {}, [pres == z3.Select(st[op.obj + '.pres'], key), z3.Implies(pres, val == z3.Select(st[op.obj + '.val'], key))]
+    if k == 'dsmut':
+        p_, v_ = st[op.obj + '.pres'], st[op.obj + '.val']
+        for (what, key, value) in op.args[0]:
+            if what == 'put':
+                p_ = z3.Store(p_, key, z3.BoolVal(True))
+                v_ = z3.Store(v_, key, value)
+            else:
+                p_ = z3.Store(p_, key, z3.BoolVal(False))
+        return T_, {op.obj + '.pres': p_, op.obj + '.val': v_}, []
     if k == 'read':
         return T_, {}, [op.res == st[op.obj]]
     if k == 'write':
